@@ -12,7 +12,7 @@ sys.path.insert(0, str(V / "tools"))
 sys.path.insert(0, str(V))
 
 # properties whose check has been integrated (runs clean on the current tree); others stay under not_applicable
-READY = ["C01", "C02", "C03", "C04", "C05", "C06", "C07", "C08", "C09", "C10", "C11", "C12", "C13", "C15", "C16", "C17", "C18", "C19", "C20"]
+READY = ["C01", "C02", "C03", "C04", "C05", "C06", "C07", "C08", "C09", "C10", "C11", "C12", "C13", "C14", "C15", "C16", "C17", "C18", "C19", "C20"]
 NOT_YET = {}
 DEFAULT_REASON = "check not built yet (work in progress; DESIGN.md section 8 gives the build order)"
 
